@@ -274,7 +274,7 @@ E2E_QUICK = ["forced_held", "stop_twice_forced", "stop_dropped_unpolled", "idle_
              "graceful_timeout", "signal_int", "signal_quit", "signal_term_held", "stop_while_paused", "stop_twice_graceful",
              "two_workers_graceful", "signal_term", "graceful_dropped_unpolled", "graceful_dropped_polled",
              "signal_term_held_c", "signal_int_c", "signal_term_c", "signal_quit_c",
-             "signal_term_held_t", "signal_int_t", "signal_term_t", "signal_quit_t"]
+             "signal_term_held_t", "signal_int_t", "signal_term_t", "signal_quit_t", "server_dropped_mid_graceful"]
 E2E_THOROUGH = E2E_QUICK
 
 
